@@ -21,7 +21,12 @@ def fmtLoaded : Loaded → String
   | .namedCal n => s!"ok NamedCal name={hexOfStr n}"
   | .fxRates s => s!"ok FXRates q={s.nquotes} c={",".intercalate (s.currencies.map hexOfStr)}"
   | .spline tag s => s!"ok {tag} k={s.k} t={s.t} n={s.n} c={optNat s.c}"
-  | .unmodelled => "unmodelled"
+  | .curve s =>
+    let n := match s.nodes with
+      | .f64 n => s!"F64:{n}"
+      | .dual l => s!"Dual:{l.length}"
+      | .dual2 l => s!"Dual2:{l.length}"
+    s!"ok Curve n={n} i={s.interpolator} id={hexOfStr s.id} cv={s.convention} m={s.modifier} ib={if s.hasIndexBase then 1 else 0} cal={s.calendar}"
 
 /-- `<n> item*n` prefix of a token list -/
 def counted (t : List String) : Option (List String × List String) :=
